@@ -58,6 +58,12 @@ fn main() {
                 )
                 .unwrap();
             }
+            // an activated service is free to log on its standard output and standard error; neither may end up in
+            // the protocol stream of whoever activated it
+            if std::env::var("VH_NOISY").is_ok() {
+                println!("activated service: log line on stdout");
+                eprintln!("activated service: log line on stderr");
+            }
             let r = varlink::listen(
                 spec().build(false),
                 &args[2],
